@@ -15,7 +15,7 @@ import networkx as nx
 from mosaik import scheduler
 from mosaik.scenario import World
 from mosaik.simmanager import SimRunner
-from mosaik.tiered_time import TieredInterval, TieredTime
+from mosaik.tiered_time import TieredTime
 
 _originals = {
     'step': scheduler.step,
@@ -107,10 +107,12 @@ def pre_step(world: World, sim: SimRunner, inputs: InputData):
 
     for suc_sim in sim.successors_to_wait_for:
         suc = suc_sim.sid
-        if sim.last_step >= TieredTime(0):
+        if sim.last_step.time >= 0:
             suc_node = (suc, sims[suc].last_step)
             eg.add_edge(suc_node, node_id)
-            assert sims[suc].progress.time + TieredInterval(1) >= next_step
+            # (Only compare the main times; the two simulators might be in
+            # different groups.)
+            assert sims[suc].progress.time.time + 1 >= next_step.time
 
 
 def post_step(world: World, sim: SimRunner):
